@@ -36,7 +36,7 @@ ALPHA = LAYERS * OUTS * 6 + LAYERS * 3
 def runs(tier, seed):
     if tier == "thorough":
         return [Run("coinscache_ex", cases=ALPHA * ALPHA, params={"layers": LAYERS, "outpoints": OUTS, "len": 6}, timeout=14400, name="exhaustive"),
-                Run("coinscache_rand", cases=100000, params={"len": 200}, timeout=14400, name="random")]
+                Run("coinscache_rand", cases=20000, params={"len": 200}, timeout=14400, name="random")]
     return [Run("coinscache_ex", cases=ALPHA * ALPHA, params={"layers": LAYERS, "outpoints": OUTS, "len": 5}, timeout=7200, name="exhaustive"),
             Run("coinscache_rand", cases=4000, params={"len": 200}, timeout=7200, name="random")]
 
